@@ -210,9 +210,49 @@ impl Out {
     }
 }
 
+// ---- hang monitor -----------------------------------------------------
+// A call into the code under test that does not come back is data about that
+// code, not a tool failure: a monitor thread notices that some guarded call
+// has been running for longer than the limit while nothing else made
+// progress, prints the case and ends the process with exit code 97.
+use std::sync::atomic::{AtomicI64, AtomicU64, Ordering};
+static ACTIVE: AtomicI64 = AtomicI64::new(0);
+static LAST_PROGRESS_MS: AtomicU64 = AtomicU64::new(0);
+static CASE: std::sync::Mutex<String> = std::sync::Mutex::new(String::new());
+
+fn now_ms() -> u64 {
+    use std::time::{SystemTime, UNIX_EPOCH};
+    SystemTime::now().duration_since(UNIX_EPOCH).map(|d| d.as_millis() as u64).unwrap_or(0)
+}
+
+/// what the process is working on (shown when a call never returns)
+pub fn set_case(desc: &str) {
+    if let Ok(mut c) = CASE.lock() {
+        c.clear();
+        c.push_str(&desc[..desc.len().min(4000)]);
+    }
+}
+
+pub fn start_hang_monitor() {
+    let limit_ms: u64 = std::env::var("ACVERIF_CALL_LIMIT_S").ok().and_then(|v| v.parse().ok()).unwrap_or(120) * 1000;
+    LAST_PROGRESS_MS.store(now_ms(), Ordering::SeqCst);
+    std::thread::spawn(move || loop {
+        std::thread::sleep(std::time::Duration::from_millis(500));
+        if ACTIVE.load(Ordering::SeqCst) > 0 && now_ms().saturating_sub(LAST_PROGRESS_MS.load(Ordering::SeqCst)) > limit_ms {
+            let case = CASE.lock().map(|c| c.clone()).unwrap_or_default();
+            eprintln!("HANG {}", serde_json::json!({"limit_s": limit_ms / 1000, "case": case}));
+            std::process::exit(97);
+        }
+    });
+}
+
 /// Run a closure, turning a panic of the code under test into data.
 pub fn guarded<T>(f: impl FnOnce() -> T) -> Result<T, String> {
+    ACTIVE.fetch_add(1, Ordering::SeqCst);
+    LAST_PROGRESS_MS.store(now_ms(), Ordering::SeqCst);
     let r = std::panic::catch_unwind(std::panic::AssertUnwindSafe(f));
+    ACTIVE.fetch_sub(1, Ordering::SeqCst);
+    LAST_PROGRESS_MS.store(now_ms(), Ordering::SeqCst);
     r.map_err(|e| {
         if let Some(s) = e.downcast_ref::<&str>() {
             s.to_string()
